@@ -1,8 +1,11 @@
-"""Proof obligations that the H state classes of symsim compute what the real state classes compute.
+"""Obligations tying the H state classes of symsim to the real state classes.
 
 The real `_PySignalState.update` and `_PyMemoryState.read / write / commit` are executed by CPython
 on proxies (forking on every comparison, `in range(...)`, list index and dict lookup) and compared by
-z3 with the merged H versions for all values."""
+z3 with the merged H versions for all values.  The H versions are the array / masked-merge semantics
+written directly; a disagreement is replayed on plain ints against a three-line reference and, if the
+REAL class deviates from the reference, reported as a violation of the property the memory / signal
+semantics belong to (C11)."""
 import z3
 
 from amaranth.hdl import Signal, Shape
@@ -10,7 +13,7 @@ from amaranth.hdl._mem import MemoryData
 
 from . import symsim
 from .pysym import explore, fresh, bool_term, sym_not, is_sym, timed_check, eval_in_model
-from .run import PROVED, VIOLATION, INCONCLUSIVE, ERROR
+from .run import PROVED, VIOLATION, INCONCLUSIVE, ERROR, UNREPRODUCED
 
 
 def _neq(a, b):
@@ -21,11 +24,42 @@ def _neq(a, b):
     return a != b
 
 
-def _decide(res, paths, pairs_of):
+# ---------------------------------------------------------------------------- concrete reference
+def ref_memory_ops(depth, width, signed, rows, a0, writes):
+    """Plain-int reference: read(a0); then masked writes in order (merged per row), commit."""
+    def norm(v):
+        v &= (1 << width) - 1
+        if signed and width and v >> (width - 1):
+            v -= 1 << width
+        return v
+    out = [rows[a0] if 0 <= a0 < depth else 0]
+    new = list(rows)
+    for (a, v, m) in writes:
+        if 0 <= a < depth:
+            cur = new[a]
+            val = v if m is None else ((v & m) | (cur & ~m))
+            new[a] = norm(val) if signed else val
+    return out + new
+
+
+def real_memory_ops(depth, width, signed, rows, a0, writes):
+    md = MemoryData(shape=Shape(width, signed), depth=depth, init=[])
+    real = symsim._RealMemoryState(md, set())
+    real.data = list(rows)
+    real.write_queue = {}
+    out = [real.read(a0)]
+    for (a, v, m) in writes:
+        real.write(a, v, m)
+    if real.write_queue:
+        real.commit()
+    return out + list(real.data)
+
+
+def _decide(res, paths, inputs, replay_fn):
     for p in paths:
         if p.exc is not None:
             return dict(res, status=ERROR, detail=f"exception: {type(p.exc).__name__}: {p.exc}")
-        diffs = [bool_term(_neq(a, b)) for a, b in pairs_of(p.value) if _neq(a, b) is not False]
+        diffs = [bool_term(_neq(a, b)) for a, b in p.value if _neq(a, b) is not False]
         if not diffs:
             continue
         s = z3.Solver()
@@ -33,10 +67,18 @@ def _decide(res, paths, pairs_of):
             s.add(c)
         s.add(z3.Or(*diffs))
         r = timed_check(s)
-        if r == z3.sat:
-            return dict(res, status=ERROR, detail=f"H state differs from the real state class: model {s.model()}")
         if r == z3.unknown:
             return dict(res, status=INCONCLUSIVE, detail="solver unknown")
+        if r == z3.sat:
+            mdl = s.model()
+            vals = {k: ([eval_in_model(mdl, x) for x in v] if isinstance(v, list) else eval_in_model(mdl, v)) for k, v in inputs.items()}
+            rep = replay_fn(vals)
+            if rep["real"] != rep["reference"]:
+                return dict(res, status=VIOLATION, detail=f"{res['program']} with {vals}: real class gives {rep['real']}, "
+                            f"array semantics give {rep['reference']}", cex=vals, signature={"kind": "state-class", "class": res["program"].split()[0]},
+                            replay=dict(rep["replay"], hstate=True, cfg={"shape": (1, False)}))
+            return dict(res, status=ERROR, detail=f"the H state class differs from the real one on {vals} although the real one matches "
+                        f"the reference: the stub is wrong")
     return dict(res, status=PROVED, paths=len(paths))
 
 
@@ -44,22 +86,33 @@ def signal_update(width, signed):
     sig = Signal(Shape(width, signed))
     res = {"id": f"hstate-signal-{'s' if signed else 'u'}{width}", "kind": "stub-equivalence", "nontrivial": True,
            "program": f"_PySignalState.update on {'signed' if signed else 'unsigned'}({width})",
-           "assertion": "real update(value, mask) leaves the same `next` as HSignalState.update"}
+           "assertion": "real update(value, mask) leaves the same `next` as the masked merge (HSignalState.update)"}
+    masks = (-1, (1 << width) - 1, 0b0110 & ((1 << width) - 1), 0)
+    cur = fresh("cur", width, signed)
+    val = fresh("val", width, signed)
 
     def scen():
         real = symsim._RealSignalState(sig, set())
         h = symsim.HSignalState(sig, set())
-        cur = fresh("cur", width, signed)
-        val = fresh("val", width, signed)
         out = []
-        for mask in (-1, (1 << width) - 1, 0b0110 & ((1 << width) - 1), 0):
+        for mask in masks:
             real.curr = real.next = cur
             h.curr = h.next = cur
             real.update(val, mask)
             h.update(val, mask)
             out.append((real.next, h.next))
         return out
-    return _decide(res, explore(scen, max_paths=256), lambda v: v)
+
+    def replay_fn(v):
+        got, want = [], []
+        for mask in masks:
+            real = symsim._RealSignalState(sig, set())
+            real.curr = real.next = v["cur"]
+            real.update(v["val"], mask)
+            got.append(real.next)
+            want.append((v["cur"] & ~mask) | (v["val"] & mask))
+        return {"real": got, "reference": want, "replay": {"what": "signal", "width": width, "signed": signed, **v}}
+    return _decide(res, explore(scen, max_paths=256), {"cur": cur, "val": val}, replay_fn)
 
 
 def memory_ops(depth, width, signed):
@@ -67,40 +120,54 @@ def memory_ops(depth, width, signed):
     aw = max(depth.bit_length(), 1) + 1
     res = {"id": f"hstate-memory-d{depth}-{'s' if signed else 'u'}{width}", "kind": "stub-equivalence", "nontrivial": True,
            "program": f"_PyMemoryState read / write+write+commit, depth {depth}, row {'signed' if signed else 'unsigned'}({width})",
-           "assertion": "real read()/write()/commit() give the same data as HMemoryState for all rows, addresses, values, masks"}
+           "assertion": "real read()/write()/commit() give the same data as the array semantics (HMemoryState) for all rows, addresses, values, masks"}
+    rows = [fresh(f"row{i}", width, signed) for i in range(depth)]
+    a0, a1, a2 = fresh("a0", aw, False), fresh("a1", aw, False), fresh("a2", aw, False)
+    v1, v2 = fresh("v1", width, False), fresh("v2", width, False)
+    m1, m2 = fresh("m1", width, False), fresh("m2", width, False)
 
     def scen():
         real = symsim._RealMemoryState(md, set())
         h = symsim.HMemoryState(md, set())
-        rows = [fresh(f"row{i}", width, signed) for i in range(depth)]
         real.data = list(rows)
         h.data = list(rows)
         real.write_queue = {}
         h.write_queue = []
-        a0 = fresh("a0", aw, False)
         pairs = [(real.read(a0), h.read(a0))]
-        a1, a2 = fresh("a1", aw, False), fresh("a2", aw, False)
-        v1, v2 = fresh("v1", width, False), fresh("v2", width, False)
-        m1 = fresh("m1", width, False)
-        real.write(a1, v1, m1)
-        real.write(a2, v2, None if signed else (1 << width) - 1)
-        h.write(a1, v1, m1)
-        h.write(a2, v2, None if signed else (1 << width) - 1)
-        if real.write_queue:
-            real.commit()
-        if h.write_queue:
-            h.commit()
+        for st in (real, h):
+            st.write(a1, v1, m1)
+            st.write(a2, v2, m2)          # a second, partially masked write: may hit the row the first one wrote
+            if st.write_queue:
+                st.commit()
         for i in range(depth):
             pairs.append((real.data[i], h.data[i]))
         return pairs
-    return _decide(res, explore(scen, max_paths=20000), lambda v: v)
+
+    def replay_fn(v):
+        writes = [(v["a1"], v["v1"], v["m1"]), (v["a2"], v["v2"], v["m2"])]
+        return {"real": real_memory_ops(depth, width, signed, v["rows"], v["a0"], writes),
+                "reference": ref_memory_ops(depth, width, signed, v["rows"], v["a0"], writes),
+                "replay": {"what": "memory", "depth": depth, "width": width, "signed": signed, "rows": v["rows"], "a0": v["a0"], "writes": writes}}
+    inputs = {"rows": rows, "a0": a0, "a1": a1, "a2": a2, "v1": v1, "v2": v2, "m1": m1, "m2": m2}
+    return _decide(res, explore(scen, max_paths=40000), inputs, replay_fn)
+
+
+def replay(r):
+    if r["what"] == "memory":
+        writes = [tuple(w) for w in r["writes"]]
+        real = real_memory_ops(r["depth"], r["width"], r["signed"], r["rows"], r["a0"], writes)
+        ref = ref_memory_ops(r["depth"], r["width"], r["signed"], r["rows"], r["a0"], writes)
+        print(f"_PyMemoryState depth {r['depth']} rows {r['rows']} read({r['a0']}) writes {writes}: real {real}, array semantics {ref}")
+        return 1 if real != ref else 0
+    print(r)
+    return 1
 
 
 def all_obligations(tier):
     out = []
     for (w, s) in ((3, False), (3, True), (1, True)):
         out.append(("sig", w, s))
-    depths = range(0, 4) if tier == "quick" else range(0, 7)
+    depths = range(0, 4) if tier == "quick" else range(0, 6)
     for d in depths:
         for (w, s) in ((2, False), (2, True)):
             out.append(("mem", d, w, s))
